@@ -276,10 +276,12 @@ class Prop(object):
         self._bad = None
         self.correspond_fillers(ctx, ctx.rng("sp"))
         ctx.corr_names.append("REAL decoder test-case registry: every case valid, named uniquely, variants decode like their base, mid-grey exact, numbers as documented")
-        cfs = directed_configs() + [rand_config(rng) for _ in range(ctx.n(25, 400))]
-        for cf in cfs:
+        cfs = directed_configs() + [rand_config(rng) for _ in range(ctx.n(25, 300))]
+        for ci, cf in enumerate(cfs):
             try:
-                why, n, skipped = violates(cf, ctx.thorough)
+                # the two slow generators (signal_range, real_pictures: large analyses, natural pictures) run for a
+                # handful of configurations of the thorough tier only
+                why, n, skipped = violates(cf, ctx.thorough and 12 <= ci < 18)
             except Exception as e:  # noqa
                 why, n, skipped = "exception %s: %s" % (type(e).__name__, str(e)[:200]), 0, []
             ctx.evaluations += n
